@@ -95,7 +95,7 @@ def build(variant="asan"):
     os.rename(tmp, out)
     return exe
 
-HARNESS_ENV = {"ASAN_OPTIONS": "handle_segv=0:allow_user_segv_handler=1:detect_leaks=0:abort_on_error=1:handle_abort=0", "UBSAN_OPTIONS": "print_stacktrace=1:halt_on_error=1"}
+HARNESS_ENV = {"ASAN_OPTIONS": "handle_segv=0:allow_user_segv_handler=1:detect_leaks=0:abort_on_error=1:handle_abort=0:allocator_may_return_null=1", "UBSAN_OPTIONS": "print_stacktrace=1:halt_on_error=1"}
 
 def run_harness(exe, args, outdir, stream, timeout=900, parts=1, extra_env=None):
     """Run a harness driver (optionally as `parts` processes over a hash partition of its input space).
